@@ -44,6 +44,21 @@ pub fn check_area(run: &mut Run, c: MCell, class: &str) -> Option<f64> {
     if run.margin("relative_area_error", rel, 1e-4, case) {
         run.violation("C04.area", case(), format!("area measured from the reported boundary is {:.9e} sr, 4 pi / N({}) = {:.9e} sr: relative error {:.3e} (bound 1e-4)", area, c.res, want, rel));
     }
+    // "all cells of a resolution" are cells however their id is spelt: an accepted non-canonical spelling (one stray bit below the
+    // marker) of this cell must enclose the same area - where the library answers for it at all
+    if mix(id, 0xa4) % 8 == 0 {
+        let mut arng = crate::rng::Rng::stream(id, "C04.alias", 0);
+        if let Some(w) = stray_alias(&mut arng, c) {
+            run.count("alias_spellings.tried");
+            if let Ok(ring_w) = ring_units(w, 64) {
+                run.count("alias_spellings.answered");
+                let rel_w = (ring_area(&ring_w, c.res) / want - 1.0).abs();
+                if run.margin("relative_area_error.alias_spelling", rel_w, 1e-4, case) {
+                    run.violation("C04.alias_area", json!({"cell": hu(id), "alias": hu(w), "res": c.res}), format!("{} is accepted as a spelling of {} (resolution {}) but its reported boundary encloses an area off by {:.3e} (relative)", hu(w), hu(id), c.res, rel_w));
+                }
+            }
+        }
+    }
     if c.res >= 1 {
         run.nontrivial(mix(id, 4));
     }
